@@ -121,13 +121,13 @@ def build_harness(kind="ft"):
         env = dict(GOENV)
         if kind == "ft":
             env["CGO_ENABLED"] = "0"
-            cmd = ["go", "build", "-tags", "verif faketime", "-o", binp + ".tmp", "."]
+            cmd = ["go", "build", "-tags", "verif faketime timetzdata", "-o", binp + ".tmp", "."]
         elif kind == "race":
             env["CGO_ENABLED"] = "1"
-            cmd = ["go", "build", "-race", "-tags", "verif", "-o", binp + ".tmp", "."]
+            cmd = ["go", "build", "-race", "-tags", "verif timetzdata", "-o", binp + ".tmp", "."]
         else:
             env["CGO_ENABLED"] = "0"
-            cmd = ["go", "build", "-tags", "verif", "-o", binp + ".tmp", "."]
+            cmd = ["go", "build", "-tags", "verif timetzdata", "-o", binp + ".tmp", "."]
         if REPO == "/repo":
             p = subprocess.run(cmd, cwd=HARNESS_DIR, env=env, stdout=subprocess.PIPE, stderr=subprocess.STDOUT, text=True)
         else:
